@@ -288,6 +288,7 @@ func extractFacts(repo string) (string, error) {
 		{"failsafehttp/http.go", "cancelOnCloseBody", "Close"}, {"failsafehttp/http.go", "roundTripper", "RoundTrip"}, {"failsafehttp/http.go", "Request", "Do"},
 		{"failsafegrpc/client.go", "", "NewUnaryClientInterceptorWithExecutor"}, {"failsafegrpc/server.go", "", "NewUnaryServerInterceptorWithExecutor"},
 		{"failsafegrpc/server.go", "", "NewServerInHandleWithExecutor"},
+		{"timeout/timeout.go", "config", "Build"}, {"fallback/fallback.go", "config", "Build"},
 	} {
 		key := strings.TrimSuffix(filepath.Base(e[0]), ".go") + ":" + e[1] + "." + e[2]
 		if fd := fx.fn(e[0], e[1], e[2]); fd != nil {
